@@ -38,8 +38,10 @@ def _order_of(num):
 
 
 def strat_conv(tier):
-    num = st.one_of(st.sampled_from([dict(name="extrapol1"), dict(name="extrapol2"), dict(name="extrapol3"), dict(name="centered"), dict(name="fromm"), dict(name="quick")]),
-                    st.builds(lambda k: dict(name="extrapolk", k=k), gen.f(-1, 1)), gen.num_muscl())
+    # one branch per design-order class, so that each class (in particular the only third-order scheme) gets a fixed share of the cases
+    third = st.sampled_from([dict(name="extrapol3"), dict(name="extrapol3"), dict(name="extrapolk", k=1.0 / 3.0)])
+    second = st.one_of(st.sampled_from([dict(name="extrapol2"), dict(name="centered"), dict(name="fromm"), dict(name="quick")]), st.builds(lambda k: dict(name="extrapolk", k=k), gen.f(-1, 1)))
+    num = st.one_of(st.just(dict(name="extrapol1")), second, second, third, third, gen.num_muscl(), gen.num_muscl())
     return st.builds(lambda sg, ea, L, kw, ph, T, nm, integ, x0: dict(a=sg * 10 ** ea, length=L, k=kw, phase=ph, T=T, num=nm, integ=integ, x0=x0),
                      st.sampled_from([1.0, -1.0]), gen.f(-0.5, 0.5), gen.logf(-1, 1), st.integers(1, 3), gen.f(0, 1), gen.f(0.1, 1.0), num,
                      st.sampled_from(["rk3ssp", "rk4", "rk3ssp", "rk4", "lsrk26bb", "cranknicolson"]), st.one_of(st.just(0.0), gen.f(-1, 1)))
